@@ -310,9 +310,19 @@ def run_check(pid, tier, seed, root=None, jobs=16, keep=False):
             if o['rc'] is not None and (o['rc'] < 0 or o['sanitizer_reports']
                                         or res is None):
                 # the process died: signal, abort() from a C assert, sanitizer
+                extra = {}
+                if o['spec'].get('sacrificial'):
+                    # a shard that runs ONE case of a recorded finding in a
+                    # process of its own: its death is that finding (the
+                    # match block of the entry still has to agree)
+                    extra = dict(finding=o['spec']['sacrificial'],
+                                 reentry_action=o['spec'].get(
+                                     'reentry_action'),
+                                 reentry_trigger=o['spec'].get(
+                                     'reentry_trigger'))
                 violations.append(dict(
                     mechanism='crash' if o['rc'] else 'sanitizer-report',
-                    rc=o['rc'],
+                    rc=o['rc'], **extra,
                     stderr=o['stderr'][-3000:],
                     reports=o['sanitizer_reports'][:2],
                     journal=o.get('journal', ''), shard=o['spec']))
